@@ -231,6 +231,16 @@ def gen_local(seed, tier):
     w["shots"].append({"weapon": 1, "ammo": 0, "atmo": 0, "winds": None, "look": gen.gen_angle_deg(rng, gen.pick(rng, [0.0, 3.0, -5.0, 20.0])),
                        "relative": [0.0, "Degree"], "cant": [0.0, "Degree"]})
     trace_shot = len(w["shots"]) - 1
+    # the same in a vacuum: vertical acceleration between integration points must be the calculator's gravity
+    w["atmos"].append({"kind": "vacuum", "altitude": [0.0, "Foot"], "temperature": [15.0, "Celsius"]})
+    w["shots"].append(dict(w["shots"][trace_shot], atmo=len(w["atmos"]) - 1))
+    vacuum_shot = len(w["shots"]) - 1
+    # a weapon whose stored zero (1 degree) is far from any zero at these distances: with an iteration cap of 0 the
+    # finder has no search step and cannot have met the accuracy, so it must raise
+    w["weapons"].append({"sight_height": [2.0, "Inch"], "twist": [0, "Inch"], "zero": [1.0, "Degree"]})
+    w["shots"].append({"weapon": len(w["weapons"]) - 1, "ammo": 0, "atmo": 0, "winds": None, "look": [0.0, "Degree"],
+                       "relative": [0.0, "Degree"], "cant": [0.0, "Degree"]})
+    offzero_shot = len(w["shots"]) - 1
     prog = []
     live = []
 
@@ -267,18 +277,26 @@ def gen_local(seed, tier):
                             ("chart_resolution", [0.2, 1.0])):
                 if not bare_default and rng.random() < 0.25:
                     cfg[k] = gen.pick(rng, vals)
+            if not bare_default and rng.random() < 0.12:
+                cfg["cMaxIterations"] = 0
+                cfg.setdefault("max_calc_step_size_feet", 4.0)
             w["calcs"].append({"config": cfg if (cfg or rng.random() < 0.5) else None})
             cid = len(w["calcs"]) - 1
             prog.append({"op": "new_calc", "calc": cid})
             live.append(cid)
+            if cfg.get("cMaxIterations") == 0:
+                prog.append({"op": "zero", "calc": cid, "shot": offzero_shot, "dist": [100.0, "Yard"], "cap0": True})
         else:
             c = gen.pick(rng, live)
-            k = gen.pick(rng, ["fire", "fire", "zero", "trace"])
+            k = gen.pick(rng, ["fire", "fire", "zero", "trace", "gravity"])
             if k == "fire":
                 prog.append({"op": "fire", "calc": c, "shot": gen.pick(rng, shots), "range": simgen.gen_range(rng, 50, 300),
                              "step": [50.0, "Yard"]})
             elif k == "zero":
                 prog.append({"op": "zero", "calc": c, "shot": gen.pick(rng, shots), "dist": simgen.gen_range(rng, 50, 200)})
+            elif k == "gravity":
+                prog.append({"op": "fire", "calc": c, "shot": vacuum_shot, "range": [gen.pick(rng, [30.0, 60.0]), "Yard"],
+                             "step": [1000.0, "Yard"], "extra": True, "time_step": 1e-9, "gravity_trace": True})
             else:
                 prog.append({"op": "fire", "calc": c, "shot": trace_shot, "range": [gen.pick(rng, [40.0, 80.0, 150.0]), "Yard"],
                              "step": [1000.0, "Yard"], "extra": True, "time_step": 1e-9, "trace": True})
@@ -357,6 +375,68 @@ def check_local(spec, hist):
                 if worst > mx * (1 + 1e-9):
                     bad("step.exceeds_configured_maximum", i, f"an integration step advanced the projectile {worst!r} ft, "
                                                               f"the calculator's maximum step is {mx!r} ft")
+    # limits, iteration cap and accuracy honoured (the full truthfulness analysis of aborts is C04's, of caps C02's; here
+    # only: the calculator's OWN settings - not another calculator's, not the defaults - are the ones that act)
+    full = {}
+    for i, op in enumerate(prog):
+        if op["op"] == "new_calc":
+            full[op["calc"]] = dict(CONFIG_DEFAULTS, **(spec["world"]["calcs"][op["calc"]].get("config") or {}))
+        if i >= len(res) or op.get("calc") not in full:
+            continue
+        r, cfg = res[i], full[op["calc"]]
+        if op["op"] == "fire" and isinstance(r.get("digest"), dict) and r["digest"].get("rows"):
+            rows = r["digest"]["rows"]
+            sh = spec["world"]["shots"][op["shot"]]
+            aspec = spec["world"]["atmos"][sh["atmo"]]["altitude"]
+            alt0 = gen.to_feet(spec["world"]["qpool"][aspec["ref"]] if isinstance(aspec, dict) else aspec)
+            body = rows[1:-1] if r.get("kind") == "exc" else rows[1:]
+            for n, row in enumerate(body, 1):
+                v = float.fromhex(row[2]) * 3.2808399
+                y = float.fromhex(row[4]) / 12.0
+                if v < cfg["cMinimumVelocity"] * (1 - 1e-3) - 1e-6 or y < cfg["cMaximumDrop"] - 1e-6 * abs(cfg["cMaximumDrop"]) - 1e-9 \
+                        or alt0 + y < cfg["cMinimumAltitude"] - 1e-6 * (abs(cfg["cMinimumAltitude"]) + abs(alt0)) - 1e-9:
+                    bad("limits.not_honoured", i, f"row {n} (v={v!r} fps, y={y!r} ft, altitude {alt0 + y!r} ft) is beyond this "
+                                                  f"calculator's limits {cfg['cMinimumVelocity']}, {cfg['cMaximumDrop']}, {cfg['cMinimumAltitude']}")
+                    break
+            if r.get("kind") == "exc" and r["digest"].get("exc") == "RangeError":
+                v = float.fromhex(rows[-1][2]) * 3.2808399
+                y = float.fromhex(rows[-1][4]) / 12.0
+                ok = {"Minimum velocity reached": v < cfg["cMinimumVelocity"] * (1 + 1e-9),
+                      "Maximum drop reached": y < cfg["cMaximumDrop"] + 1e-9 * abs(cfg["cMaximumDrop"]) + 1e-12,
+                      "Minimum altitude reached": alt0 + y < cfg["cMinimumAltitude"] + 1e-9 * (abs(cfg["cMinimumAltitude"]) + abs(alt0)) + 1e-12}
+                if not ok.get(r["digest"].get("reason"), False):
+                    bad("limits.not_honoured", i, f"range error {r['digest'].get('reason')!r} but the last row (v={v!r}, y={y!r}, "
+                                                  f"altitude {alt0 + y!r}) does not violate this calculator's limit")
+        if op.get("cap0") and r.get("kind") == "ok":
+            bad("iteration_cap.not_honoured", i, "zeroing with an iteration cap of 0 from a stored zero of 1 degree returned an "
+                                                 "angle: the cap given to this calculator did not act")
+        if op["op"] in ("zero", "elev") and r.get("kind") == "exc" and isinstance(r.get("digest"), dict) \
+                and r["digest"].get("exc") == "ZeroFindingError":
+            if r["digest"]["iterations"] > cfg["cMaxIterations"]:
+                bad("iteration_cap.not_honoured", i, f"{r['digest']['iterations']} iterations, this calculator's cap is {cfg['cMaxIterations']}")
+            if not float.fromhex(r["digest"]["error"]) > cfg["cZeroFindingAccuracy"]:
+                bad("zero_accuracy.not_honoured", i, f"ZeroFindingError with error {float.fromhex(r['digest']['error'])!r} although this "
+                                                     f"calculator's accuracy is {cfg['cZeroFindingAccuracy']!r}")
+    # gravity honoured: in a vacuum the vertical velocity changes by exactly g per second between integration points
+    calc_g = {}
+    for i, op in enumerate(prog):
+        if op["op"] == "new_calc":
+            calc_g[op["calc"]] = (spec["world"]["calcs"][op["calc"]].get("config") or {}).get("cGravityConstant", -32.17405)
+        if op["op"] == "fire" and op.get("gravity_trace") and i < len(res) and res[i].get("kind") in ("ok", "exc"):
+            rows = res[i]["digest"].get("rows") if isinstance(res[i].get("digest"), dict) else None
+            if rows and len(rows) > 6 and op["calc"] in calc_g:
+                g = calc_g[op["calc"]]
+                worst = 0.0
+                for a, b in zip(rows[2:-2], rows[3:-1]):
+                    dt = float.fromhex(b[0]) - float.fromhex(a[0])
+                    if dt <= 0:
+                        continue
+                    vya = float.fromhex(a[2]) * 3.2808399 * math.sin(float.fromhex(a[10]))
+                    vyb = float.fromhex(b[2]) * 3.2808399 * math.sin(float.fromhex(b[10]))
+                    worst = max(worst, abs((vyb - vya) / dt - g))
+                if worst > 1e-6 * abs(g) + 1e-6:
+                    bad("gravity.not_honoured", i, f"vertical acceleration in a vacuum deviates from the calculator's "
+                                                   f"gravity {g!r} by {worst!r} ft/s^2")
     fin = float.fromhex(hist["final_globals"]["gstep"])
     if abs(fin - 0.5) > 1e-12:
         bad("gstep.differs_from_model", len(prog), f"global step {fin!r} after reset_globals()")
